@@ -163,6 +163,9 @@ func run(c *core.Ctx) {
 }
 
 func exec(c *core.Ctx, cs Case) {
+	if stuck >= 3 {
+		return // broken implementation: enough hangs recorded, do not wait for more
+	}
 	c.Begin(cs)
 	c.Count("fn_" + cs.Fn)
 	switch cs.Fn {
